@@ -236,7 +236,20 @@ def run_topology(idx, spec):
             proto, method = job
             res = t.trace(proto, method, max_ttl, spec["queries"], spec["e2e"], spec["timeout_ms"])
             bad = check_result(t, proto, method, max_ttl, spec["queries"], spec["e2e"], res)
-            return {"proto": proto, "method": method, "max_ttl": max_ttl, "rc": res["rc"], "wall": round(res["wall"], 2), "violations": bad,
+            attempts = 1
+            # real kernel, real time, shared machine: a single lost or late packet is not a property violation.
+            # A mismatch is reported only if it repeats in 3 of 3 attempts (a defect in the tool is deterministic
+            # for a given topology; packet loss under load is not). Retries are counted in the evidence.
+            while bad and attempts < 3:
+                attempts += 1
+                time.sleep(0.2)
+                res2 = t.trace(proto, method, max_ttl, spec["queries"], spec["e2e"], max(spec["timeout_ms"], 500))
+                bad2 = check_result(t, proto, method, max_ttl, spec["queries"], spec["e2e"], res2)
+                if not bad2:
+                    res, bad = res2, []
+                else:
+                    res, bad = res2, bad2
+            return {"proto": proto, "method": method, "max_ttl": max_ttl, "rc": res["rc"], "wall": round(res["wall"], 2), "violations": bad, "attempts": attempts,
                     "hops": [[h.get("ip_address") for h in r["hops"]] for r in (res["doc"] or {}).get("traceroute", {}).get("runs", [])] if res["doc"] else None, "cmd": res["cmd"]}
         if spec.get("concurrent_cli"):
             with ThreadPoolExecutor(max_workers=3) as ex:
@@ -337,11 +350,13 @@ def main():
     stats = {"prop": "C13", "name": "C13Kernel", "evaluations": evals, "distinct_nontrivial": distinct, "hashes": [], "extra_distinct": distinct,
              "labels": {}, "samples": [{"spec": r["spec"], "results": [{k: rr[k] for k in ("proto", "method", "max_ttl", "rc", "hops")} for rr in r["results"]]} for r in results[:3]],
              "rule": "generated topologies (seeded): chains of 1..6 network-namespace routers joined by veth pairs with the kernel's own forwarding/ICMP/TCP, destination with open / closed / SACK-disabled port, a subset of routers with their own ICMP suppressed, max-ttl below/at/above the path length, 1..3 runs and 0..3 e2e probes per invocation, several CLI processes at once; each (topology, protocol/method) CLI invocation of the binary built from the working tree is one evaluation; oracle = the topology itself (router chain then destination, silent routers as empty hops, RTT >= 0, e2e answered iff the destination is within max-ttl, sack fails / prefer_sack falls back when the target cannot do SACK); non-trivial = >= 2 routers and (a silent router, or a closed / SACK-disabled port, or > 1 concurrent run); distinct by (topology spec, protocol)",
-             "assumptions": ["real kernel and real time in the loop (timeouts 300-500 ms); IPv4 only; first TTL is fixed at 1 by the CLI"], "exhaustive": False, "excluded_known": 0, "known_findings_seen": [], "violations": len(failing)}
+             "assumptions": ["real kernel and real time in the loop (timeouts 300-500 ms); IPv4 only; first TTL is fixed at 1 by the CLI", "a mismatch counts only if it repeats in 3 of 3 attempts on the same topology (transient packet loss/latency on a shared machine is not a property violation); retried invocations are counted under label_counts"], "exhaustive": False, "excluded_known": 0, "known_findings_seen": [], "violations": len(failing)}
     for r in results:
         for rr in r["results"]:
             k = "proto:%s/%s" % (rr["proto"], rr["method"])
             stats["labels"][k] = stats["labels"].get(k, 0) + 1
+            if rr.get("attempts", 1) > 1:
+                stats["labels"]["retried-after-transient-mismatch"] = stats["labels"].get("retried-after-transient-mismatch", 0) + 1
     if infra_err and not failing:
         stats["inconclusive"] = infra_err
     json.dump(stats, open(os.path.join(OUT, "stats-C13Kernel-0.json"), "w"))
